@@ -70,6 +70,7 @@ func init() {
 			{"colorWrapi", fColor, "Wrapi"},
 			{"colorWrapf", fColor, "Wrapf"},
 			{"filterFunction", fFilter, "filterFunction"},
+			{"determineErrorState", fExit, "DetermineErrorState"},
 		} {
 			fd := c.Func(a.file, a.fn)
 			c.Fingerprint(a.file, a.fn)
@@ -209,6 +210,110 @@ func init() {
 		uses("uses_syncReaderToBatcher", fBatcher, "Batcher.syncReaderToBatcher")
 		uses("uses_syncReaderToBatcherWithTimeFlush", fBatcher, "Batcher.syncReaderToBatcherWithTimeFlush")
 		uses("uses_extractorNew", fExtractor, "New")
+
+		// ---- the scanner a batching loop reads through, and what happens on a read / open error
+		scanner := func(lean, file, fn string) {
+			fd := c.Func(file, fn)
+			if fd == nil || fd.Body == nil {
+				sb.WriteString(untranslatable(lean))
+				return
+			}
+			var out []string
+			ast.Inspect(fd.Body, func(n ast.Node) bool {
+				call, ok := n.(*ast.CallExpr)
+				if !ok {
+					return true
+				}
+				name := txt(call.Fun)
+				switch {
+				case name == "readahead.NewImmediate" || name == "readahead.NewBuffered" || name == "readahead.New" || name == "newReaderMetrics":
+					out = append(out, txt(call))
+				case strings.HasSuffix(name, ".OnError") && len(call.Args) == 1:
+					if fl, ok := call.Args[0].(*ast.FuncLit); ok {
+						out = append(out, "OnError{")
+						out = append(out, c.c06Ctl(fl.Body.List)...)
+						out = append(out, "}")
+					} else {
+						out = append(out, txt(call))
+					}
+				case strings.HasSuffix(name, ".Scan") || strings.HasSuffix(name, ".Bytes") || strings.HasSuffix(name, ".ReadLine"):
+					out = append(out, txt(call))
+				}
+				return true
+			})
+			fmt.Fprintf(&sb, "/-- how `%s` reads its source: reader wrapper, scanner constructor, error callback, scan calls (source order) -/\ndef %s : List String := %s\n\n", fn, lean, leanStrList(out))
+		}
+		scanner("scanner_syncReaderToBatcher", fBatcher, "Batcher.syncReaderToBatcher")
+		scanner("scanner_syncReaderToBatcherWithTimeFlush", fBatcher, "Batcher.syncReaderToBatcherWithTimeFlush")
+		// the open-error branch of the reader goroutine of OpenFilesToChan: `if err != nil { … }` right after openFileToReader
+		if fd := c.Func(fFiles, "OpenFilesToChan"); fd != nil && fd.Body != nil {
+			var out []string
+			found := false
+			ast.Inspect(fd.Body, func(n ast.Node) bool {
+				bs, ok := n.(*ast.BlockStmt)
+				if !ok {
+					return true
+				}
+				for i, st := range bs.List {
+					as, ok := st.(*ast.AssignStmt)
+					if !ok || len(as.Rhs) != 1 || !strings.HasPrefix(txt(as.Rhs[0]), "openFileToReader(") || i+1 >= len(bs.List) {
+						continue
+					}
+					if is, ok := bs.List[i+1].(*ast.IfStmt); ok && !found {
+						found = true
+						out = append(out, txt(as), "if "+txt(is.Cond)+"{")
+						out = append(out, c.c06Ctl(is.Body.List)...)
+						out = append(out, "}")
+					}
+				}
+				return true
+			})
+			fmt.Fprintf(&sb, "/-- `OpenFilesToChan`: opening a file and the branch taken when that fails -/\ndef openError_openFilesToChan : List String := %s\n\n", leanStrList(out))
+		} else {
+			sb.WriteString(untranslatable("openError_openFilesToChan"))
+		}
+
+		// ---- DetermineErrorState: if <cond> { return cli.Exit(<msg>, <code>) } …; return nil
+		if fd := c.Func(fExit, "DetermineErrorState"); fd != nil && fd.Body != nil {
+			var guards []string
+			okAll := len(fd.Body.List) > 0
+			for i, st := range fd.Body.List {
+				if i == len(fd.Body.List)-1 {
+					if rs, ok := st.(*ast.ReturnStmt); !ok || len(rs.Results) != 1 || txt(rs.Results[0]) != "nil" {
+						okAll = false
+					}
+					continue
+				}
+				is, ok := st.(*ast.IfStmt)
+				if !ok || is.Else != nil || is.Init != nil || len(is.Body.List) != 1 {
+					okAll = false
+					continue
+				}
+				rs, ok := is.Body.List[0].(*ast.ReturnStmt)
+				if !ok || len(rs.Results) != 1 {
+					okAll = false
+					continue
+				}
+				call, ok := rs.Results[0].(*ast.CallExpr)
+				if !ok || txt(call.Fun) != "cli.Exit" || len(call.Args) != 2 {
+					okAll = false
+					continue
+				}
+				msg, ok := StringLit(call.Args[0])
+				if !ok {
+					okAll = false
+					continue
+				}
+				guards = append(guards, fmt.Sprintf("(%s, %s, %s)", leanStr(txt(is.Cond)), leanStr(msg), leanStr(txt(call.Args[1]))))
+			}
+			if okAll {
+				fmt.Fprintf(&sb, "/-- `DetermineErrorState`: `if cond { return cli.Exit(msg, code) }` … `return nil`: (cond, msg, code), source order -/\ndef exitGuards : List (String × String × String) := [%s]\n\n", strings.Join(guards, ",\n  "))
+			} else {
+				sb.WriteString(untranslatable("exitGuards"))
+			}
+		} else {
+			sb.WriteString(untranslatable("exitGuards"))
+		}
 
 		// ---- flag defaults (getExtractorFlags)
 		if fd := c.Func(fBuilder, "getExtractorFlags"); fd != nil && fd.Body != nil {
